@@ -38,6 +38,7 @@ def main():
         d = os.path.join(sd, name)
         meta = json.load(open(os.path.join(d, "meta.json")))
         prop = meta.get("property", name.split("-")[0])
+        results[name] = {}  # results of earlier runs of this change are superseded
         wt = tempfile.mkdtemp(prefix="rs_%s_" % name, dir="/tmp")
         os.rmdir(wt)
         r = sh(["git", "-C", "/repo", "worktree", "add", "--detach", wt, "HEAD"])
@@ -49,7 +50,9 @@ def main():
                 print("%-8s patch does not apply to HEAD: %s" % (name, r.stdout[-300:]))
                 results.setdefault(name, {})["apply"] = "failed at " + head
                 continue
-            checks = sorted(registry.CHECKS) if allc else [prop]
+            # "judged_by": the change was written against `property`, but the clause it breaks is owned by another
+            # property's check (recorded with the reason in meta.json when the delivery was confirmed)
+            checks = sorted(registry.CHECKS) if allc else meta.get("judged_by", [prop])
             for c in checks:
                 if c not in registry.CHECKS:
                     print("%-8s %s: check not built yet" % (name, c))
@@ -73,7 +76,25 @@ def main():
             sh(["git", "-C", "/repo", "worktree", "remove", "--force", wt])
             shutil.rmtree(wt, ignore_errors=True)
         json.dump(results, open(resp, "w"), indent=1, sort_keys=True)
+    write_table(results, os.path.join(sd, "RESULTS.md"))
     return 0
+
+
+def write_table(results, path):
+    rows, n, caught = [], 0, 0
+    for name in sorted(results, key=lambda k: (k.split("-")[0], int(k.split("-")[1]))):
+        for c, r in sorted(results[name].items()):
+            if not isinstance(r, dict):
+                rows.append("| %s | - | %s | |" % (name, r))
+                continue
+            n += 1
+            caught += bool(r.get("caught"))
+            rows.append("| %s | %s | %s | `%s` |" % (name, c, "yes" if r.get("caught") else "NO", r.get("first", "")[:110].replace("|", "\\|")))
+    with open(path, "w") as f:
+        f.write("# Seeded changes vs. checks\n\nGenerated from RESULTS.json by `tools/run_seeds.py` (%d of %d runs reported a violation).  A change whose "
+                "meta.json has `judged_by` is run against the check that owns the clause it breaks (reason in the meta.json).\n\n"
+                "| change | check | caught | first violation reported |\n|---|---|---|---|\n" % (caught, n))
+        f.write("\n".join(rows) + "\n")
 
 
 if __name__ == "__main__":
